@@ -58,7 +58,7 @@ def sinkOp (filters : Str → Option (V → List V → Res V)) (args : List Stri
          else "accepted-ends-at-the-failing-write") ++ " k=" ++ toString f.k
     | none =>
       if c.obsTag == "PANIC" || c.obsTag == "BADUTF8" then "specfail " ++ c.kind ++ " law=fault-free-run " ++ c.obsTag else
-      let env : Env := { partials := c.partials, filters := filters }
+      let env : Env := Env.ofList c.partials filters
       let (r, _, w) := renderT defaultFuel env c.tmpl (Rt.build c.data) {}
       let rs : Res Str := match r with
         | .ok () => .ok w.text | .err => .err | .io => .io | .panic s => .panic s | .fuel => .fuel
